@@ -49,6 +49,7 @@ import (
 
 	"github.com/projectcalico/calico/libcalico-go/lib/backend/api"
 	"github.com/projectcalico/calico/libcalico-go/lib/backend/model"
+	"github.com/projectcalico/calico/libcalico-go/lib/backend/syncersv1/updateprocessors"
 	"github.com/projectcalico/calico/libcalico-go/lib/backend/watchersyncer"
 	cerrors "github.com/projectcalico/calico/libcalico-go/lib/errors"
 	"github.com/projectcalico/calico/verifkit/ev"
@@ -69,6 +70,11 @@ func c26Inconclusive(msg string) {
 
 var c26Kinds = []string{apiv3.KindNetworkPolicy, apiv3.KindIPPool, apiv3.KindBGPPeer}
 var c26KindShort = []string{"np", "pool", "peer"}
+
+// c26MarkerKind is an extra, never-faulted resource type.  All caches feed one FIFO results channel,
+// so a marker written to this type after the fake has seen type A start its next List is delivered
+// to the callbacks after everything A produced while processing its previous List.
+const c26MarkerKind = apiv3.KindFelixConfiguration
 
 // ---- fault plan vocabulary ---------------------------------------------------------------------
 
@@ -139,6 +145,12 @@ type c26TypeState struct {
 	// listAlwaysErr: the datastore has gone away for good (early-stop ending).
 	listAlwaysErr     bool
 	listErrsSinceGone int
+	// Sticky backend behaviours (set by composite steps, cleared before the final barrier):
+	// watchUnsupported: every Watch answers "operation not supported" => the cache polls.
+	// emptyNoRevBackend: while the type has no objects, List answers an empty list without a
+	// revision (the backend quirk the polling fallback exists for).
+	watchUnsupported  bool
+	emptyNoRevBackend bool
 	// bookkeeping for the oracle / evidence
 	listsCompleted   int
 	listCalls        int
@@ -188,6 +200,10 @@ func (s *c26Store) set(kind, name string) {
 func (s *c26Store) del(kind, name string) bool {
 	s.mu.Lock()
 	defer s.mu.Unlock()
+	return s.delLocked(kind, name)
+}
+
+func (s *c26Store) delLocked(kind, name string) bool {
 	ts := s.types[kind]
 	old, existed := ts.objs[name]
 	if !existed {
@@ -220,6 +236,9 @@ func (s *c26Store) List(ctx context.Context, list model.ListInterface, revision 
 	}
 	if outcome == c26ListEmptyNoRev && len(ts.objs) > 0 {
 		outcome = c26ListOK
+	}
+	if outcome == c26ListOK && ts.emptyNoRevBackend && len(ts.objs) == 0 {
+		outcome = c26ListEmptyNoRev
 	}
 	if ts.listAlwaysErr {
 		outcome = c26ListErr
@@ -276,6 +295,8 @@ func (s *c26Store) Watch(ctx context.Context, list model.ListInterface, options 
 	if len(ts.watchPlan) > 0 {
 		plan = ts.watchPlan[0]
 		ts.watchPlan = ts.watchPlan[1:]
+	} else if ts.watchUnsupported {
+		plan = c26WatchPlan{Outcome: c26WatchNotSupp}
 	}
 	s.logf("Watch(%s, rev=%s) -> %v", kind, options.Revision, plan)
 	defer s.bumpLocked()
@@ -491,6 +512,73 @@ func (c26Proc) Process(kvp *model.KVPair) ([]*model.KVPair, error) {
 	return out, err
 }
 
+// c26CachingConvert is the converter handed to the real conflict-resolving caching processor
+// (updateprocessors.NewConflictResolvingCacheUpdateProcessor, the one behind IPPools, HostEndpoints,
+// ...): objects "x" and "y" of a type map to the same output key (lowest name wins), every other
+// object to a key of its own.
+func c26CachingConvert(kvp *model.KVPair) (*model.KVPair, error) {
+	rk := kvp.Key.(model.ResourceKey)
+	group := rk.Name
+	if rk.Name == "x" || rk.Name == "y" {
+		group = "xy"
+	}
+	return &model.KVPair{
+		Key:      model.HostConfigKey{Hostname: rk.Kind + "-grp", Name: group},
+		Value:    rk.Name + ":" + kvp.Value.(string),
+		Revision: kvp.Revision,
+	}, nil
+}
+
+const (
+	c26ProcNone      = ""
+	c26ProcStateless = "stateless"
+	c26ProcCaching   = "caching"
+)
+
+func c26NewProc(mode, kind string) watchersyncer.SyncerUpdateProcessor {
+	switch mode {
+	case c26ProcStateless:
+		return c26Proc{}
+	case c26ProcCaching:
+		return updateprocessors.NewConflictResolvingCacheUpdateProcessor(kind, c26CachingConvert)
+	}
+	return nil
+}
+
+// c26Through folds the given objects of one type through a FRESH processor of the given mode.
+func c26Through(mode, kind string, objs map[string]c26Obj, into map[string]string) {
+	names := make([]string, 0, len(objs))
+	for n := range objs {
+		names = append(names, n)
+	}
+	sort.Strings(names)
+	proc := c26NewProc(mode, kind)
+	if proc != nil {
+		proc.OnSyncerStarting()
+	}
+	for _, n := range names {
+		o := objs[n]
+		kvp := &model.KVPair{Key: c26Key(kind, n), Value: o.val, Revision: strconv.Itoa(o.rev)}
+		if proc == nil {
+			into[kvp.Key.String()] = o.val
+			continue
+		}
+		kvps, _ := proc.Process(kvp)
+		for _, kv := range kvps {
+			if kv.Value != nil {
+				into[kv.Key.String()] = fmt.Sprint(kv.Value)
+			} else {
+				delete(into, kv.Key.String())
+			}
+		}
+	}
+}
+
+// c26KeyOfKind tells whether a callback key (its String()) stems from the given resource type.
+func c26KeyOfKind(kind, key string) bool {
+	return strings.HasPrefix(key, kind+"(") || strings.Contains(key, "node="+kind+"-")
+}
+
 // ---- callback recorder ---------------------------------------------------------------------------
 
 type c26Recorder struct {
@@ -588,24 +676,12 @@ func (r *c26Recorder) ParseFailed(rawKey string, rawValue string) {
 
 // ---- expected view -------------------------------------------------------------------------------
 
-func c26Expected(s *c26Store, kinds []string, withProc map[string]bool) map[string]string {
+func c26Expected(s *c26Store, kinds []string, procMode map[string]string) map[string]string {
 	s.mu.Lock()
 	defer s.mu.Unlock()
 	exp := map[string]string{}
 	for _, kind := range kinds {
-		ts := s.types[kind]
-		for n, o := range ts.objs {
-			if !withProc[kind] {
-				exp[c26Key(kind, n).String()] = o.val
-				continue
-			}
-			kvps, _ := c26Proc{}.Process(&model.KVPair{Key: c26Key(kind, n), Value: o.val, Revision: strconv.Itoa(o.rev)})
-			for _, kv := range kvps {
-				if kv.Value != nil {
-					exp[kv.Key.String()] = fmt.Sprint(kv.Value)
-				}
-			}
-		}
+		c26Through(procMode[kind], kind, s.types[kind].objs, exp)
 	}
 	return exp
 }
@@ -680,16 +756,63 @@ func (c *c26Case) waitRec(what string, cond func() bool) {
 	}
 }
 
-// settle waits until the type has a running watcher that has delivered its whole history.
+// settle waits until the type has a running watcher that has delivered its whole history or, when
+// the type is in a polling regime (Watch unsupported / empty list without revision), until two more
+// Lists have completed (so at least one full List taken after this call has been processed).
 func (c *c26Case) settle(kind string) {
-	c.waitStore("watcher for "+kind+" established and caught up", func() bool {
+	base := -1
+	c.waitStore("watcher for "+kind+" established and caught up (or two polls completed)", func() bool {
 		ts := c.store.types[kind]
-		w := ts.watcher
-		if w == nil || w.ended || !w.caughtUp || w.killNow != "" {
-			return false
+		if w := ts.watcher; w != nil && !w.ended && w.caughtUp && w.killNow == "" &&
+			(len(ts.history) == 0 || ts.history[len(ts.history)-1].rev <= w.lastRev) {
+			return true
 		}
-		return len(ts.history) == 0 || ts.history[len(ts.history)-1].rev <= w.lastRev
+		if ts.watchUnsupported || (ts.emptyNoRevBackend && len(ts.objs) == 0) {
+			if base < 0 {
+				base = ts.listsCompleted
+			}
+			return ts.listsCompleted >= base+2
+		}
+		return false
 	})
+}
+
+// pollCheckpoint checks clause 1 for ONE type while it is polling (no sentinel can be written into
+// the type without changing what the next List returns).  Preconditions: the type's fault plans are
+// empty and the harness is not mutating it.  Wait for two more completed Lists of the type (when
+// the second is served, the cache has finished processing the first, which was taken after the last
+// mutation), then send a marker through the marker type: the results channel is FIFO across caches,
+// so once the marker is visible everything that first List produced has reached the callbacks.
+func (c *c26Case) pollCheckpoint(kind string, procMode map[string]string, what string) {
+	c.store.mu.Lock()
+	base := c.store.types[kind].listsCompleted
+	c.store.mu.Unlock()
+	c.waitStore("two more polls of "+kind, func() bool { return c.store.types[kind].listsCompleted >= base+2 })
+	c.store.set(c26MarkerKind, "marker")
+	c.store.mu.Lock()
+	mv := c.store.types[c26MarkerKind].objs["marker"].val
+	objs := map[string]c26Obj{}
+	for n, o := range c.store.types[kind].objs {
+		objs[n] = o
+	}
+	c.store.mu.Unlock()
+	mk := c26Key(c26MarkerKind, "marker").String()
+	c.waitRec("marker "+mv+" visible in callbacks", func() bool { return c.rec.view[mk] == mv })
+	want := map[string]string{}
+	c26Through(procMode[kind], kind, objs, want)
+	got := map[string]string{}
+	c.rec.mu.Lock()
+	for k, v := range c.rec.view {
+		if c26KeyOfKind(kind, k) {
+			got[k] = v
+		}
+	}
+	c.rec.mu.Unlock()
+	c.checkViolations()
+	if c26FmtMap(got) != c26FmtMap(want) {
+		c.t.Fatalf("C26 violated: %s: %s is polling, at least one full List taken after the last change has been processed and delivered, but the folded callback view for that type differs from the datastore contents (through a fresh update processor)\n got: %s\nwant: %s\n%s",
+			what, kind, c26FmtMap(got), c26FmtMap(want), c.dump())
+	}
 }
 
 func (c *c26Case) checkViolations() {
@@ -722,24 +845,38 @@ func TestVerifC26WatcherSyncer(t *testing.T) {
 
 	rapid.Check(t, func(t *rapid.T) {
 		nTypes := rapid.IntRange(1, 3).Draw(t, "numTypes")
-		kinds := c26Kinds[:nTypes]
+		stepKinds := c26Kinds[:nTypes] // the types the generated steps act on
 		store := &c26Store{types: map[string]*c26TypeState{}, changed: make(chan struct{}), rev: rapid.IntRange(1, 50).Draw(t, "initialRevision")}
-		withProc := map[string]bool{}
+		procMode := map[string]string{}
 		var rts []watchersyncer.ResourceType
-		for _, k := range kinds {
+		var cachingKinds []string
+		for _, k := range stepKinds {
 			store.types[k] = &c26TypeState{kind: k, objs: map[string]c26Obj{}, cacheKnows: map[string]bool{}}
 			rt := watchersyncer.ResourceType{ListInterface: model.ResourceListOptions{Kind: k}}
-			if rapid.Bool().Draw(t, "updateProcessor-"+k) {
-				withProc[k] = true
-				rt.UpdateProcessor = c26Proc{}
+			procMode[k] = rapid.SampledFrom([]string{c26ProcNone, c26ProcStateless, c26ProcCaching, c26ProcCaching}).Draw(t, "updateProcessor-"+k)
+			if p := c26NewProc(procMode[k], k); p != nil {
+				rt.UpdateProcessor = p
+			}
+			if procMode[k] == c26ProcCaching {
+				cachingKinds = append(cachingKinds, k)
 			}
 			rt.SendDeletesOnConnFail = rapid.Bool().Draw(t, "sendDeletesOnConnFail-"+k)
 			rts = append(rts, rt)
 		}
+		// The marker type: never faulted, never touched by generated steps.  It is needed by the
+		// polling checkpoints; without it (1/3 of cases) those composites are not generated, but the
+		// aggregated status can regress to WaitForDatastore mid-run (it needs *every* cache waiting).
+		useMarker := rapid.IntRange(0, 2).Draw(t, "markerType") != 0
+		kinds := append([]string{}, stepKinds...) // all types
+		if useMarker {
+			store.types[c26MarkerKind] = &c26TypeState{kind: c26MarkerKind, objs: map[string]c26Obj{}, cacheKnows: map[string]bool{}}
+			rts = append(rts, watchersyncer.ResourceType{ListInterface: model.ResourceListOptions{Kind: c26MarkerKind}})
+			kinds = append(kinds, c26MarkerKind)
+		}
 		cbs := &c26Recorder{store: store, kinds: kinds, view: map[string]string{}, changed: make(chan struct{})}
 		c := &c26Case{t: t, store: store, rec: cbs, kinds: kinds}
 
-		kindGen := rapid.SampledFrom(kinds)
+		kindGen := rapid.SampledFrom(stepKinds)
 		nameGen := rapid.SampledFrom([]string{"x", "y", "z"})
 		listOutcomeGen := rapid.SampledFrom([]string{c26ListErr, c26ListErr, c26ListNotFound, c26ListExpired, c26ListEmptyNoRev, c26ListOK})
 		watchErrGen := rapid.SampledFrom([]string{c26WatchErr, c26WatchExpired, c26WatchExpired, c26WatchGone, c26WatchRefused, c26WatchTooMany, c26WatchNotSupp, c26WatchNotExist})
@@ -763,7 +900,7 @@ func TestVerifC26WatcherSyncer(t *testing.T) {
 			store.set(k, n)
 			c.steps = append(c.steps, "init set "+k+"/"+n)
 		}
-		for _, k := range kinds {
+		for _, k := range stepKinds {
 			nl := rapid.IntRange(0, 2).Draw(t, "initListFaults")
 			for i := 0; i < nl; i++ {
 				o := listOutcomeGen.Draw(t, "listOutcome")
@@ -801,12 +938,111 @@ func TestVerifC26WatcherSyncer(t *testing.T) {
 
 		var ops []string
 		outageDeletes := 0
+		wipeouts, pollPrimaries := 0, 0
 		nSteps := rapid.IntRange(1, 14).Draw(t, "steps")
 		for i := 0; i < nSteps; i++ {
 			kind := kindGen.Draw(t, "kind")
 			short := c26KindShort[c26IndexOf(c26Kinds, kind)]
-			step := rapid.SampledFrom([]string{"set", "set", "del", "settle", "listFault", "watchPlan", "kill", "outage", "outage", "outage"}).Draw(t, "step")
+			step := rapid.SampledFrom([]string{"set", "set", "del", "settle", "listFault", "watchPlan", "kill", "outage", "outage", "outage", "wipeout", "wipeout", "pollPrimary", "pollPrimary", "heal"}).Draw(t, "step")
+			if !useMarker && (step == "pollPrimary" || step == "wipeout") {
+				step = "outage"
+			}
+			if step == "pollPrimary" {
+				if len(cachingKinds) == 0 {
+					step = "outage"
+				} else {
+					kind = rapid.SampledFrom(cachingKinds).Draw(t, "cachingKind")
+					short = c26KindShort[c26IndexOf(c26Kinds, kind)]
+				}
+			}
 			switch step {
+			case "heal":
+				// The backend quirks of this type go away (Watch supported again, empty Lists carry a revision).
+				store.mu.Lock()
+				store.types[kind].watchUnsupported = false
+				store.types[kind].emptyNoRevBackend = false
+				store.bumpLocked()
+				store.mu.Unlock()
+				c.steps = append(c.steps, "heal "+kind)
+				ops = append(ops, "H"+short)
+			case "wipeout":
+				// Objects exist and are synced; then, during an outage whose revision expires, every
+				// object of the type is deleted, and the backend answers the re-List with an empty
+				// list that carries no revision (so the cache falls back to polling).
+				c.steps = append(c.steps, "wipeout "+kind+" {")
+				store.mu.Lock()
+				ts := store.types[kind]
+				ts.listPlan, ts.watchPlan = nil, nil
+				ts.watchUnsupported = false
+				n0 := len(ts.objs)
+				store.bumpLocked()
+				store.mu.Unlock()
+				if n0 == 0 {
+					n := nameGen.Draw(t, "name")
+					store.set(kind, n)
+					c.steps = append(c.steps, "  set "+kind+"/"+n)
+				}
+				if rapid.Bool().Draw(t, "wipeoutSecondObject") {
+					n := nameGen.Draw(t, "name")
+					store.set(kind, n)
+					c.steps = append(c.steps, "  set "+kind+"/"+n)
+				}
+				c.settle(kind)
+				how := endGen.Draw(t, "killHow")
+				store.mu.Lock()
+				ts.emptyNoRevBackend = true
+				ts.watchPlan = []c26WatchPlan{{Outcome: rapid.SampledFrom([]string{c26WatchExpired, c26WatchGone}).Draw(t, "outageExpiry")}}
+				var names []string
+				for n := range ts.objs {
+					names = append(names, n)
+				}
+				sort.Strings(names)
+				if w := ts.watcher; w != nil && !w.ended {
+					w.killNow = how
+				}
+				// Same critical section: the watcher must not get to deliver these deletions, and the
+				// cache must not re-List before they have happened.
+				for _, n := range names {
+					store.delLocked(kind, n)
+				}
+				store.bumpLocked()
+				store.mu.Unlock()
+				c.steps = append(c.steps, fmt.Sprintf("  watcher killed (%s), revision expires, all %d objects deleted, empty Lists carry no revision", how, len(names)), "  poll checkpoint", "}")
+				c.pollCheckpoint(kind, procMode, "after all objects of the type vanished during an outage")
+				wipeouts++
+				ops = append(ops, "X"+short)
+			case "pollPrimary":
+				// A type with the caching, conflict-resolving processor whose backend cannot Watch
+				// (polling): x and y map to one output key; the primary (x) is deleted between polls.
+				c.steps = append(c.steps, "pollPrimary "+kind+" {")
+				store.mu.Lock()
+				ts := store.types[kind]
+				ts.listPlan, ts.watchPlan = nil, nil
+				ts.watchUnsupported = true
+				if w := ts.watcher; w != nil && !w.ended {
+					w.killNow = c26EndClose
+				}
+				store.bumpLocked()
+				store.mu.Unlock()
+				store.set(kind, "x")
+				store.set(kind, "y")
+				c.steps = append(c.steps, "  Watch unsupported from now on; set "+kind+"/x, "+kind+"/y; poll checkpoint")
+				c.pollCheckpoint(kind, procMode, "polling with both conflicting objects present")
+				switch rapid.SampledFrom([]string{"delPrimary", "delPrimary", "delPrimary", "delSecondary", "updPrimary"}).Draw(t, "betweenPolls") {
+				case "delPrimary":
+					store.del(kind, "x")
+					c.steps = append(c.steps, "  del "+kind+"/x (the primary); poll checkpoint")
+					pollPrimaries++
+				case "delSecondary":
+					store.del(kind, "y")
+					c.steps = append(c.steps, "  del "+kind+"/y (the shadowed one); poll checkpoint")
+				case "updPrimary":
+					store.set(kind, "x")
+					c.steps = append(c.steps, "  set "+kind+"/x; poll checkpoint")
+				}
+				c.pollCheckpoint(kind, procMode, "polling after a change between polls")
+				c.steps = append(c.steps, "}")
+				ops = append(ops, "Q"+short)
 			case "set":
 				n := nameGen.Draw(t, "name")
 				store.set(kind, n)
@@ -955,7 +1191,10 @@ func TestVerifC26WatcherSyncer(t *testing.T) {
 		for _, k := range kinds {
 			store.types[k].listPlan = nil
 			store.types[k].watchPlan = nil
+			store.types[k].watchUnsupported = false
+			store.types[k].emptyNoRevBackend = false
 		}
+		store.bumpLocked()
 		store.mu.Unlock()
 		clean := false
 		rounds := 0
@@ -978,16 +1217,19 @@ func TestVerifC26WatcherSyncer(t *testing.T) {
 				store.mu.Lock()
 				o := store.types[k].objs["sentinel"]
 				store.mu.Unlock()
-				if !withProc[k] {
-					want[c26Key(k, "sentinel").String()] = o.val
-					continue
+				// What this write must produce downstream: through a fresh processor of the type's
+				// kind, on the sentinel alone (its output keys are its own in every processor here).
+				one := map[string]string{}
+				c26Through(procMode[k], k, map[string]c26Obj{"sentinel": o}, one)
+				for key, v := range one {
+					want[key] = v
 				}
-				kvps, _ := c26Proc{}.Process(&model.KVPair{Key: c26Key(k, "sentinel"), Value: o.val, Revision: strconv.Itoa(o.rev)})
-				for _, kv := range kvps {
-					if kv.Value != nil {
-						want[kv.Key.String()] = fmt.Sprint(kv.Value)
-					} else {
-						absent = append(absent, kv.Key.String())
+				if procMode[k] == c26ProcStateless {
+					kvps, _ := c26Proc{}.Process(&model.KVPair{Key: c26Key(k, "sentinel"), Value: o.val, Revision: strconv.Itoa(o.rev)})
+					for _, kv := range kvps {
+						if kv.Value == nil {
+							absent = append(absent, kv.Key.String())
+						}
 					}
 				}
 			}
@@ -1012,7 +1254,7 @@ func TestVerifC26WatcherSyncer(t *testing.T) {
 			clean = plansEmpty && after == before
 		}
 		c.checkViolations()
-		exp := c26Expected(store, kinds, withProc)
+		exp := c26Expected(store, kinds, procMode)
 		cbs.mu.Lock()
 		got := c26FmtMap(cbs.view)
 		cbs.mu.Unlock()
@@ -1062,8 +1304,14 @@ func TestVerifC26WatcherSyncer(t *testing.T) {
 		if nTypes > 1 {
 			classes = append(classes, "multi-type")
 		}
+		if wipeouts > 0 {
+			classes = append(classes, "relist-empty-norev-after-having-resources")
+		}
+		if pollPrimaries > 0 {
+			classes = append(classes, "polling-with-caching-processor-primary-deleted")
+		}
 		key := strings.Join(ops, "")
-		rec.SizedCase(faults > 0 && needDel > 0, key, len(ops), func() any {
+		rec.SizedCase((faults > 0 && needDel > 0) || wipeouts > 0 || pollPrimaries > 0, key, len(ops), func() any {
 			return map[string]any{"ops": key, "steps": c.steps, "lists": lists, "watches": watches}
 		}, classes...)
 	})
